@@ -735,6 +735,8 @@ type histOpts struct {
 	cap                int
 	pFail              int // percent of statements that are single-row INSERTs refused at their first row
 	preTables          int // tables created up front (7 user tables split the page table's root leaf)
+	preRows            int // rows loaded into each of those tables up front (by INSERTs of at most maxRows rows)
+	keyed              bool // tables (k int, v varchar) with k = 0, 1, 2, ...; statements address single rows or short key ranges
 }
 
 func runHistory(cfg *config, id int, r *hx.Rng, o histOpts) {
@@ -743,8 +745,12 @@ func runHistory(cfg *config, id int, r *hx.Rng, o histOpts) {
 	defer d.close()
 	d.createdb()
 	var tables []*gtable
+	nextKey := map[string]int{}
 	newTable := func() {
 		t := genSchema2(r, len(tables)+1, o.maxCols)
+		if o.keyed {
+			t = &gtable{name: fmt.Sprintf("t%d", len(tables)+1), cols: []gcol{{"k", "int"}, {"v", "varchar"}}}
+		}
 		if d.stmt(createText(t)) == "ok" {
 			tables = append(tables, t)
 		}
@@ -752,6 +758,28 @@ func runHistory(cfg *config, id int, r *hx.Rng, o histOpts) {
 	newTable()
 	for k := 1; k < o.preTables; k++ {
 		newTable()
+	}
+	for ti, t := range tables {
+		pre := o.preRows
+		if o.keyed && ti != 1 && len(tables) > 2 {
+			pre = r.Range(1, 3) // one big table, a hot one that grows, the rest small
+		}
+		for at := 0; at < pre; {
+			var rows [][]interface{}
+			for k := 0; k < o.maxRows && at < pre; k++ {
+				if o.keyed {
+					rows = append(rows, []interface{}{int64(nextKey[t.name]), fmt.Sprintf("v%d", nextKey[t.name])})
+					nextKey[t.name]++
+				} else {
+					rows = append(rows, genRowValues(r, t, false))
+				}
+				at++
+			}
+			d.insertv(t.name, nil, rows)
+			if r.Intn(100) < o.pFlush {
+				d.flush()
+			}
+		}
 	}
 	splitsSeen := false
 	for s := 0; s < o.stmts; s++ {
@@ -787,6 +815,53 @@ func runHistory(cfg *config, id int, r *hx.Rng, o histOpts) {
 					}
 				}
 				d.insertv(t.name, nil, [][]interface{}{row})
+			}
+			continue
+		}
+		if o.keyed {
+			if len(tables) > 2 && r.Chance(1, 2) {
+				t = tables[0] // the hot table: most statements go there, mostly inserts
+			}
+			n := nextKey[t.name]
+			switch x := r.Intn(100); {
+			case x < 35 || n == 0 || (t == tables[0] && x < 80):
+				var rows [][]interface{}
+				for k, m := 0, r.Range(1, o.maxRows); k < m; k++ {
+					rows = append(rows, []interface{}{int64(nextKey[t.name]), fmt.Sprintf("v%d", nextKey[t.name])})
+					nextKey[t.name]++
+				}
+				d.stmt(insertText(t, rows, r.Bool()))
+			case x < 65:
+				d.stmt(fmt.Sprintf("UPDATE %s SET v = 'u%d' WHERE k = %d", t.name, s, r.Intn(n)))
+			case x < 80:
+				a := r.Intn(n)
+				d.stmt(fmt.Sprintf("UPDATE %s SET v = 'r%d' WHERE k >= %d AND k < %d", t.name, s, a, a+r.Range(2, 7)))
+			case x < 92:
+				d.stmt(fmt.Sprintf("DELETE FROM %s WHERE k = %d", t.name, r.Intn(n)))
+			default:
+				a := r.Intn(n)
+				d.stmt(fmt.Sprintf("DELETE FROM %s WHERE k >= %d AND k < %d", t.name, a, a+r.Range(2, 5)))
+			}
+			if r.Intn(100) < o.pFlush {
+				d.flush()
+			}
+			// reads of single tables between the statements: the small ones often, the big one now and then
+			// (a working set that keeps some pages hot while others are evicted and re-read)
+			if len(tables) > 2 {
+				for j := r.Intn(3); j >= 0; j-- {
+					pick := tables[2+r.Intn(len(tables)-2)]
+					if r.Chance(1, 5) {
+						pick = tables[1]
+					}
+					d.selectAll(pick.name)
+				}
+			}
+			if o.selectEvery > 0 && s%o.selectEvery == o.selectEvery-1 {
+				d.selectEvery()
+			}
+			if o.dumpEvery > 0 && s%o.dumpEvery == o.dumpEvery-1 {
+				d.dump()
+				d.roots()
 			}
 			continue
 		}
@@ -840,13 +915,13 @@ func runHistory(cfg *config, id int, r *hx.Rng, o histOpts) {
 			}
 		case x < 82:
 			q := "UPDATE " + t.name + " SET " + genSet(r, t)
-			if r.Chance(4, 5) {
+			if r.Chance(4, 5) || o.preRows > 0 {
 				q += " WHERE " + genWhere(r, t)
 			}
 			d.stmt(q)
 		default:
 			q := "DELETE FROM " + t.name
-			if r.Chance(9, 10) {
+			if r.Chance(9, 10) || o.preRows > 0 {
 				q += " WHERE " + genWhere(r, t)
 			}
 			d.stmt(q)
@@ -1124,7 +1199,7 @@ func runDB(cfg *config) {
 		n := 5 * cfg.scale
 		for i := 0; i < n; i++ {
 			id++
-			runCacheSizes(cfg, id, r.Fork(), cfg.tier == "thorough" && i%4 == 0)
+			runCacheSizes(cfg, id, r.Fork(), cfg.tier == "thorough" && i%4 == 0, i%2 == 1)
 		}
 	case "c04":
 		n := 3 * cfg.scale
@@ -1616,10 +1691,18 @@ func runFlushCrashes(cfg *config, id int, r *hx.Rng) {
 
 // runCacheSizes (C16): one workload at the default cache capacity (written to the trace and compared
 // with the model) and again at small capacities; every operation's output must be identical.
-func runCacheSizes(cfg *config, id int, r *hx.Rng, big bool) {
+func runCacheSizes(cfg *config, id int, r *hx.Rng, big bool, medium bool) {
 	// 1. the reference run: default capacity, flush after every statement
 	mark := cfg.tr.Mark()
+	caps := []int{6, 8, 16, 64}
 	o := histOpts{stmts: r.Range(30, 90), maxTables: 3, maxCols: 4, maxRows: 3, pFlush: 100, dumpEvery: 25, selectEvery: 5}
+	if medium {
+		// a database several times larger than the small capacities from the start: two tables of 100-160
+		// rows (25-40 leaves each, three levels), so that every scan evicts and most rows a statement
+		// changes sit on pages that were not resident when it began
+		o = histOpts{stmts: r.Range(120, 220), keyed: true, preTables: []int{2, 6, 8}[r.Intn(3)], preRows: r.Range(100, 160), maxTables: 8, maxCols: 3, maxRows: 3, pFlush: 100, dumpEvery: 60, selectEvery: 25}
+		caps = []int{10, 12, 16, 24, 40}
+	}
 	if big {
 		o = histOpts{stmts: 700, maxTables: 2, maxCols: 3, maxRows: 3, pFlush: 100, dumpEvery: 350, selectEvery: 70}
 	}
@@ -1633,7 +1716,7 @@ func runCacheSizes(cfg *config, id int, r *hx.Rng, big bool) {
 	}
 	refOut := groupOutputs(ref)
 	// 2. the same operations at small capacities
-	for _, cap := range []int{6, 8, 16, 64} {
+	for _, cap := range caps {
 		tmp := filepath.Join(os.TempDir(), fmt.Sprintf("verif-c16-%d-%d.txt", os.Getpid(), cap))
 		sub := &config{seed: cfg.seed, tier: cfg.tier, dir: cfg.dir, rng: hx.NewRng(1), st: hx.NewStats(), tr: hx.NewTrace(tmp)}
 		replayDBCap(sub, 1, ops, cap)
